@@ -166,7 +166,7 @@ fn check(c: &Case, ctx: &Ctx) -> Outcome {
 const RULE: &str = "generated: file of 2-6 related samples; weed FASTA = mix of ancestor-derived pieces (substrings, mutated, reverse-complemented, with N), unrelated records, optionally a whole sample or all samples; --min-freq 0; both directions run from the same original (in place on a copy, or with -o). Oracle: result == model rows whose arms are not in (reverse: are in) the weed k-mer set, all symbols and names kept; the two results partition the original (checked without the model); a second weed changes nothing. Non-trivial: >=1 row removed and >=1 kept, or a reverse-complemented weed sequence matches.";
 
 fn stages(tier: Tier) -> Vec<Box<dyn Stage>> {
-    vec![gen_stage_show("weed", RULE, tier.pick(480, 8000), 200, case_strategy, check, |c| {
+    vec![gen_stage_show("weed", RULE, tier.pick(1200, 16_000), 200, case_strategy, check, |c| {
         let (anc, s) = gen::materialise_set(&c.set);
         json!({"k": c.set.k, "two_strand": c.set.rc, "weed": weed_records(c, &anc, &s).iter().map(|x| lossy(x)).collect::<Vec<_>>(),
             "samples": s.iter().map(|(n, r)| json!({"name": n, "records": r.iter().map(|x| lossy(x)).collect::<Vec<_>>()})).collect::<Vec<_>>()})
